@@ -4,6 +4,42 @@ import vlib
 from checks import gadgets
 
 
+def big_statement(rows, violated=None):
+    """two commitments, one multiplication over them (constraints 0 and 1), then `rows` public rows a_j * x + y + c_j = 0 with c_j by
+    construction; row `violated` (if any) is off by one"""
+    ops = [{"op": "commit", "v": 3, "vb": 5}, {"op": "commit", "v": 4, "vb": 2}, {"op": "mul", "l": [["V", 0, 1]], "r": [["V", 1, 1]]}]
+    for j in range(rows):
+        o = {"op": "con", "lc": [["V", 0, j % 7 + 1], ["V", 1, 1]], "fix": j + 1}
+        if j == violated:
+            o["delta"] = 1
+        ops.append(o)
+    return ops
+
+
+def position_sweep(rows, gates, seed):
+    progs = []
+    for j in range(rows):
+        progs.append({"id": "sweep-row-%d" % j, "p": {"label": "verif", "pre": [], "cap": 1, "cbs": [], "ops": big_statement(rows, j)},
+                      "seed": seed + j, "expect_p": "", "expect_v": "reject"})
+    # gates: n1 first-phase gates, the rest in a randomized closure; gate i's output overwritten (hook) in the phase that created it
+    n1 = gates * 3 // 5
+    mulop = {"op": "allocmul", "l": 2, "r": 3}
+    pad = 1
+    while pad < gates:
+        pad *= 2
+    for i in range(gates):
+        ops = [dict(mulop, l=2 + k % 5) for k in range(n1)] + [{"op": "defer", "cb": 0}]
+        cb = [{"op": "chal", "label": "c"}] + [dict(mulop, r=3 + k % 4) for k in range(gates - n1)]
+        bg = {"op": "breakgate", "i": i, "delta": 1}
+        if i < n1:
+            ops.insert(n1, bg)
+        else:
+            cb.append(bg)
+        progs.append({"id": "sweep-gate-%d" % i, "p": {"label": "verif", "pre": [], "cap": pad, "cbs": [cb], "ops": ops},
+                      "seed": seed + 5000 + i, "expect_p": "", "expect_v": "reject"})
+    return progs
+
+
 def run(chk):
     q = chk.quick
     # (B1) System end to end on the exact field model, random-oracle challenges (MC_Protocol: Completeness, RoleSync, FSBinding,
@@ -49,6 +85,10 @@ def run(chk):
     for c in vlib.REAL_CURVES:
         rows = vlib.replay(chk, c, bad + extra, "c02")
         vlib.report_replay(chk, rows, "soundness")
+    # position sweeps (the property: "for every position of the violated constraint or gate"): one large statement, one violated row / gate
+    # per program, every position - in particular the positions a blockwise or tabulated flattening could treat differently
+    for c in vlib.REAL_CURVES:
+        vlib.report_replay(chk, vlib.replay(chk, c, position_sweep(300 if q else 1100, 21 if q else 70, chk.seed), "sweep"), "soundness-position")
     # the repository's gadgets with false statements (not a permutation, value out of range, wrong sum): semantic violations, no hook needed
     gad = [dict(p, expect_p="ok", expect_v="reject") for p, holds in gadgets.workload(chk.seed, q) if not holds]
     for c in vlib.REAL_CURVES:
@@ -79,12 +119,17 @@ def run(chk):
         else:
             chk.cov.setdefault("lucky_accepts_explained", 0)
             chk.cov["lucky_accepts_explained"] += 1
+    # "small" programs: free constraints over values and coefficients from -2 .. 3 and arbitrary small assignments - no offset is planted;
+    # the specification's Satisfied() over the recorded calls is the oracle: accepted => satisfied (whatever way the assignment fails)
+    ns = 700 if q else 8000
+    small = vlib.genprogs(chk, chk.seed + 32, ns, vlib.TOY_P[curve], "small", "small")
+    vlib.toy_ideal(chk, curve, small, "TraceIdealSoundness", "toy-soundness-small", "small31723", fl=vlib.flags(E=1))
     chk.finish(
         rule="TLC (MC_Builder, Rich) enumerates every program of at most %d calls with one or two deviations - a constraint off by +1 or -1 "
              "constant (every position, both phases, constant-only / committed-only / multiplier constraints) or a gate whose output is "
              "overwritten through the guarded hook (first and last gate, both phases), and variants in which the offset is a separate constant term before / after the satisfying constant; DeviationIffUnsatisfied is model-checked; each is replayed on "
              "secq256k1, zorro, curve25519 and must be rejected. Random bad-witness programs on toy31723 are validated by TLC (IdealSoundness), "
-             "accepted ones re-run twice with fresh randomness. distinct = distinct (curve, program) pairs" % depth,
+             "accepted ones re-run twice with fresh randomness; position sweeps on the 256-bit curves: a statement of 300 (thorough: 1100) constraints with each single row violated, a two-phase circuit of 21 (70) gates with each single gate violated; so are random programs with free constraints over small values and arbitrary small assignments (no planted offset: accepted => Satisfied). distinct = distinct (curve, program) pairs" % depth,
         assumptions=["ideal verdicts on 256-bit curves ignore events of probability ~2^-250",
                      "toy31723: an acceptance of an unsatisfying assignment counts only if it repeats under two fresh seeds (Schwartz-Zippel luck ~6e-4 per run)"])
 
